@@ -339,8 +339,8 @@ where substr(%v, 1, length(?)) = ?
 			models.HeaderColumns.Lastknownblock,
 			models.HeaderColumns.Deleted,
 			models.HeaderColumns.Typeflag,
-			pk,
-			exclude,
+			models.HeaderColumns.Name,
+			models.HeaderColumns.Linkname,
 			models.HeaderColumns.Size,
 			models.HeaderColumns.Mode,
 			models.HeaderColumns.UID,
